@@ -75,6 +75,10 @@ type cfg struct {
 	Infra    []per  `json:"infra"`
 	Partners []rew  `json:"partners,omitempty"`
 	Cores    []rew  `json:"cores,omitempty"`
+	// Uninit: the history starts from the genesis staking-rewards state (zero
+	// LastAccumulationTime), so the FIRST community begin blocker - which may also be the
+	// block that switches inflation off - is a step of the history, not part of the setup
+	Uninit bool `json:"uninit,omitempty"`
 }
 
 type op struct {
@@ -204,6 +208,9 @@ func setup(c cfg) *world {
 		kp := tApp.GetKavadistKeeper().GetParams(w.ctx)
 		kp.Active = true
 		tApp.GetKavadistKeeper().SetParams(w.ctx, kp)
+	}
+	if c.Uninit {
+		tApp.GetCommunityKeeper().SetStakingRewardsState(w.ctx, communitytypes.DefaultStakingRewardsState())
 	}
 	if p := bi(c.Pool); p.Sign() > 0 {
 		if err := tApp.GetCommunityKeeper().FundCommunityPool(w.ctx, user, sdk.NewCoins(sdk.NewCoin("ukava", sdkmath.NewIntFromBigInt(p)))); err != nil {
@@ -1209,6 +1216,7 @@ func genCfg(r *Rng, kind int) cfg {
 	c.Periods = genPeriods(r, base, r.Intn(4), safe)
 	c.Infra = genPeriods(r, base+r.Int63n(2*day), r.Intn(3), safe)
 	genRewards(r, &c)
+	c.Uninit = r.Chance(1, 3)
 	return c
 }
 
@@ -1477,6 +1485,10 @@ func directed(idx int) (cfg, []op, bool) {
 		c.Infra = []per{{t0ns - day, t0ns + 300*day, "1000000003022265980"}}
 		c.Partners = []rew{{"u0", "1000000"}, {"u1", "4000000"}}
 		return c, []op{{Kind: "block", T: t0ns + 6*ns}, {Kind: "block", T: t0ns + 12*ns}}, true
+	case 11: // the first community begin blocker ever is also the block that switches inflation off, an hour after the disable time: nothing is owed for time before the first accumulation
+		c := base
+		c.UpgRate, c.Upg, c.Uninit = "744191000000000000000000", t0ns+5*ns, true
+		return c, []op{{Kind: "block", T: t0ns + 3600*ns}, {Kind: "block", T: t0ns + 3606*ns}}, true
 	}
 	return cfg{}, nil, false
 }
